@@ -583,7 +583,7 @@ pub fn apply<B: Cb, F: Real>(
     pred: &Pred,
     depth: usize,
     seed: u64,
-    scratch: &mut Scr,
+    s: &mut Scratch<B>,
 ) -> Applied
 where
     Module<B>: HalAll<B> + CoreAll<B> + CkksAll<B>,
@@ -593,9 +593,6 @@ where
     let m = &cx.module;
     let reg = |i: u8| -> &CKKSCiphertext<Vec<u8>> { &st.regs[i as usize].ct };
     let fresh = |dst: u8, size: Dst| cx.blank(dst_limbs(st, dst, size), 0);
-    // scratch contents never matter: refill with the adversarial pattern before every call
-    scratch.fill();
-    let s: &mut Scratch<B> = scratch.get::<B>();
     macro_rules! one {
         ($dsti:expr, $ct:expr, |$d:ident| $call:expr) => {{
             let mut $d = $ct;
